@@ -939,7 +939,9 @@ func (h *c15) exchange(t *testing.T, privkey []byte, domain string) {
 			reqLen = i
 		}
 		p := h.r.Bytes(reqLen)
-		answer = h.r.Bytes(h.r.Intn(900))
+		// a response of up to 900 bytes fits the 1232-byte datagram whatever the query name; a longer one may
+		// not, and then the requester must get an error, never other bytes
+		answer = h.r.Bytes(h.r.Intn(1300))
 		type res struct {
 			b   []byte
 			err error
@@ -962,10 +964,14 @@ func (h *c15) exchange(t *testing.T, privkey []byte, domain string) {
 			if !bytes.Equal(s.req, p) && !(len(s.req) == 0 && len(p) == 0) {
 				h.out.OracleFail("C15:exchange-request-altered", fmt.Sprintf("responder callback received %d bytes for a %d-byte request", len(s.req), len(p)), "req="+vlib.Hex(p))
 			}
-			if r.err != nil || (!bytes.Equal(r.b, answer) && !(len(r.b) == 0 && len(answer) == 0)) {
+			switch {
+			case r.err != nil && len(answer) > 900:
+				h.out.Count("exchange:oversize-response-refused")
+			case r.err != nil || (!bytes.Equal(r.b, answer) && !(len(r.b) == 0 && len(answer) == 0)):
 				h.out.OracleFail("C15:exchange-response-altered", fmt.Sprintf("requester received %d bytes (err=%v) for a %d-byte response", len(r.b), r.err, len(answer)), "resp="+vlib.Hex(answer))
+			default:
+				h.out.Count("exchange:ok")
 			}
-			h.out.Count("exchange:ok")
 		case <-time.After(3 * time.Second):
 			// a datagram lost on loopback cannot be told from a hang here; not a verdict
 			incomplete++
